@@ -1,0 +1,96 @@
+//go:build verif
+
+package main
+
+// Verification hook (build tag verif): records every round of updateResolver -- the resolver's
+// state before the round and the relations the round processes -- as one JSON line appended to the
+// file named by FOLANG_VERIF_RESLOG.  Without that variable nothing is recorded.
+//
+// Types are written as the type terms of /verif/spec (FoTypeExpr / FoInfer):
+// ["var",n] ["base",n] ["unit"] ["slice",t] ["tuple",[..]] ["func",[args],ret] ["named",n,[targs]]
+// and ["fa",rec,field] for an unresolved field access (not modelled, such rounds are skipped).
+
+import (
+	"encoding/json"
+	"os"
+	"sort"
+)
+
+var verifResLog *os.File
+var verifResLogTried bool
+
+func verifTypeTerm(t FType) any {
+	switch v := t.(type) {
+	case FType_FTypeVar:
+		return []any{"var", v.Value.Name}
+	case FType_FSlice:
+		return []any{"slice", verifTypeTerm(v.Value.ElemType)}
+	case FType_FTuple:
+		es := []any{}
+		for _, e := range v.Value.ElemTypes {
+			es = append(es, verifTypeTerm(e))
+		}
+		return []any{"tuple", es}
+	case FType_FFunc:
+		ts := v.Value.Targets
+		as := []any{}
+		for _, e := range ts[:len(ts)-1] {
+			as = append(as, verifTypeTerm(e))
+		}
+		return []any{"func", as, verifTypeTerm(ts[len(ts)-1])}
+	case FType_FParamd:
+		return []any{"named", v.Value.Name, verifTypeTerms(v.Value.Targs)}
+	case FType_FRecord:
+		return []any{"named", v.Value.Name, verifTypeTerms(v.Value.Targs)}
+	case FType_FUnion:
+		return []any{"named", v.Value.Name, verifTypeTerms(v.Value.Targs)}
+	case FType_FFieldAccess:
+		return []any{"fa", verifTypeTerm(v.Value.RecType), v.Value.FieldName}
+	case FType_FUnit:
+		return []any{"unit"}
+	default:
+		return []any{"base", FTypeToGo(t)}
+	}
+}
+
+func verifTypeTerms(ts []FType) []any {
+	res := []any{}
+	for _, e := range ts {
+		res = append(res, verifTypeTerm(e))
+	}
+	return res
+}
+
+func verifTraceRound(res Resolver, rels []UniRel) {
+	if !verifResLogTried {
+		verifResLogTried = true
+		if p := os.Getenv("FOLANG_VERIF_RESLOG"); p != "" {
+			verifResLog, _ = os.OpenFile(p, os.O_APPEND|os.O_CREATE|os.O_WRONLY, 0o644)
+		}
+	}
+	if verifResLog == nil {
+		return
+	}
+	// (the maps are read directly: dict.Keys would count as an enumeration call of the pkg/dict hook)
+	names := []string{}
+	for k := range res.eid.Fdict {
+		names = append(names, k)
+	}
+	sort.Strings(names)
+	eid := []any{}
+	for _, n := range names {
+		ei := res.eid.Fdict[n]
+		members := []string{}
+		for m := range ei.eset.Dict.Fdict {
+			members = append(members, m)
+		}
+		sort.Strings(members)
+		eid = append(eid, map[string]any{"name": n, "eset": members, "res": verifTypeTerm(ei.resType)})
+	}
+	rs := []any{}
+	for _, r := range rels {
+		rs = append(rs, map[string]any{"src": r.SrcV, "dest": verifTypeTerm(r.Dest)})
+	}
+	b, _ := json.Marshal(map[string]any{"eid": eid, "rels": rs})
+	verifResLog.Write(append(b, '\n'))
+}
